@@ -71,6 +71,7 @@ func (g *Gen) wOpts() wOpts {
 	if g.pick(4) == 0 {
 		o.mcs = uint64(36 + g.pick(30))
 	}
+	o.z = g.pick(5) == 0 // ZeroLengthSectionAsEOF: changes where a resumed scan stops
 	return o
 }
 
